@@ -40,6 +40,14 @@ func main() {
 		os.Exit(worker(os.Args[2:]))
 	case "replay":
 		os.Exit(replay(os.Args[2:]))
+	case "c11race":
+		rounds := 40
+		if len(os.Args) > 2 {
+			if n, err := strconv.Atoi(os.Args[2]); err == nil {
+				rounds = n
+			}
+		}
+		props.C11Race(rounds)
 	case "c10digest":
 		fmt.Println(props.C10Digest())
 	case "list":
